@@ -207,6 +207,32 @@ def lens_events(optic, meta, rnd, quick, label):
     xs, ys = np.array(o.distribution.x, dtype=float), np.array(o.distribution.y, dtype=float)
     ev += block_events(optic, f, w, xs, ys, opds, np.array(o.data[0][0][1], dtype=float),
                        pick(rnd, len(xs), 3, [0]), True, dict(base, view="OPD", dist="hexapolar", num_rays=rings))
+    # the OPD map (what OPD.view draws) on a grid whose nodes contain the hexapolar samples of the
+    # x and y axes: at those nodes the map is the sampled quantity itself, no interpolation involved
+    try:
+        m = G.quiet(o._generate_opd_map, 2 * rings + 1)
+        inten0 = np.array(o.data[0][0][1], dtype=float)
+        zs, os_, at = [], [], []
+        # (judged when every sample of the bundle has a finite OPD: one lost ray makes the
+        # interpolant's global gradient estimate, and with it the whole map, non-finite)
+        for k in (range(len(xs)) if np.all(np.isfinite(opds * inten0)) else []):
+            gx, gy = (xs[k] + 1.0) * rings, (ys[k] + 1.0) * rings
+            # (nodes strictly inside the outermost ring: on the convex hull of the samples the
+            # interpolator may legitimately report "outside")
+            if abs(gx - round(gx)) < 1e-9 and abs(gy - round(gy)) < 1e-9 and math.isfinite(opds[k]) \
+                    and xs[k] ** 2 + ys[k] ** 2 < 1.0 - 1e-6:
+                i, j = int(round(gy)), int(round(gx))
+                if float(m["x"][i][j]) == float(np.linspace(-1, 1, 2 * rings + 1)[j]) and abs(float(m["x"][i][j]) - xs[k]) < 1e-9 \
+                        and abs(float(m["y"][i][j]) - ys[k]) < 1e-9:
+                    zs.append(float(m["z"][i][j]))
+                    os_.append(float(opds[k] * inten0[k]))
+                    at.append([float(xs[k]), float(ys[k])])
+        if zs:
+            ev.append({"kind": "map", "zs": [dy(v) for v in zs], "os": [dy(v) for v in os_],
+                       "_tag": dict(base, view="OPD map", num_rays=rings, nodes=at)})
+    except Exception as ex:
+        ev.append({"kind": "map", "zs": [dy(float("nan"))], "os": [dy(0.0)],
+                   "_tag": dict(base, view="OPD map", num_rays=rings, exc="%s: %s" % (type(ex).__name__, ex))})
     nf = rnd.randint(2, 9 if quick else 40)
     fan = G.quiet(OPDFan, optic, [fa], [w], nf)
     opds = np.array(fan.data[0][0][0], dtype=float)
